@@ -395,8 +395,18 @@ def run(ctx):
                    {"kind": "shape", "failing_input_found": False, "diff": sig_diff,
                     "note": "re-examine Model/ChanExpect.v and the SIGNATURE block"})
 
+    # ---- byte level: where the interim response lands in the output queue --------------------
+    from harness import chanout as HO
+    cost = HO.run_slice(ctx, 6000 if ctx.tier == "thorough" else 600, "C19", want_continue=True)
+    ctx.oblige("K-chanout (C19 slice): the real send_continue / write_soon / _flush_some agree with Model/ChanOut.v after every operation, and on "
+               "the same runs the socket's bytes followed by a final drain are exactly the written bytes with each interim response once and in "
+               "place (%d histories, %d send_continue calls, %d of them with a file-wrapper buffer still queued)"
+               % (cost["cases"], cost["continue_ops"], cost["continue_behind_file"]),
+               cost["cases"] > 0 and cost["disagreements"] == 0 and cost["spec_problems"] == 0 and cost["continue_behind_file"] > 0)
+
     # ---- evidence --------------------------------------------------------------------------
     cov.update({
+        "byte_level_interim_placement": cost,
         "evaluations": seq_stats["runs"] + w_stats["runs"] + len(corr_cases),
         "distinct_nontrivial": len(nontrivial) + len(model_schedules),
         "rule": "sequential: scripts with at least one asking request, distinct by (kinds, body sizes, script shape, lookahead); interleaved: distinct model-level schedules (choice strings) that contain a send_continue step",
@@ -423,6 +433,9 @@ def run(ctx):
 
 def replay(data):
     kind = data.get("kind")
+    if kind == "chanout":
+        from harness import chanout as HO
+        return HO.replay_case(data)
     if kind == "seq":
         reqs = [H.Req.from_json(d) for d in data["requests"]]
         script = H.script_from_json(data["script"])
